@@ -25,3 +25,5 @@ CONSTANTS
   ExcludeKept = TRUE
   UserRoleReverted = TRUE
   ReloadOrsUserRole = TRUE
+  MaxFlight = 0
+  RevertBySnapshot = FALSE
